@@ -16,41 +16,67 @@ open MongoModel MongoModel.Heap
 structure InvC (w : World) : Prop where
   nodup : ∀ a, cntL a w.store ≤ 1
   disj : ∀ a, 0 < cntL a w.store → cntL a w.held = 0
+  cheld : ∀ a, 0 < cntL a w.cache → cntL a w.held = 0
+  cstore : ∀ a, 0 < cntL a w.cache → cntL a w.store = 0
   bstore : ∀ a, 0 < cntL a w.store → a < w.next
   bheld : ∀ a, 0 < cntL a w.held → a < w.next
+  bcache : ∀ a, 0 < cntL a w.cache → a < w.next
 
 theorem invC_iff (w : World) : (Sep w ∧ Bounded w) ↔ InvC w := by
   constructor
-  · rintro ⟨⟨h1, h2⟩, ⟨h3, h4⟩⟩
-    refine ⟨?_, ?_, ?_, ?_⟩
+  · rintro ⟨⟨h1, h2, h5⟩, ⟨h3, h4, h6⟩⟩
+    refine ⟨?_, ?_, ?_, ?_, ?_, ?_, ?_⟩
     · exact List.nodup_iff_count.mp h1
     · intro a ha
       have := h2 a ((mem_idsL_iff a _).mpr ha)
       rw [mem_idsL_iff] at this; omega
+    · intro a ha
+      have := (h5 a ((mem_idsL_iff a _).mpr ha)).1
+      rw [mem_idsL_iff] at this; omega
+    · intro a ha
+      have := (h5 a ((mem_idsL_iff a _).mpr ha)).2
+      rw [mem_idsL_iff] at this; omega
     · intro a ha; exact h3 a ((mem_idsL_iff a _).mpr ha)
     · intro a ha; exact h4 a ((mem_idsL_iff a _).mpr ha)
+    · intro a ha; exact h6 a ((mem_idsL_iff a _).mpr ha)
   · intro h
-    refine ⟨⟨List.nodup_iff_count.mpr h.nodup, ?_⟩, ⟨?_, ?_⟩⟩
+    refine ⟨⟨List.nodup_iff_count.mpr h.nodup, ?_, ?_⟩, ⟨?_, ?_, ?_⟩⟩
     · intro a ha hb
       have := h.disj a ((mem_idsL_iff a _).mp ha)
       rw [mem_idsL_iff] at hb; omega
+    · intro a ha
+      have h1 := h.cheld a ((mem_idsL_iff a _).mp ha)
+      have h2 := h.cstore a ((mem_idsL_iff a _).mp ha)
+      refine ⟨?_, ?_⟩
+      · intro hb; rw [mem_idsL_iff] at hb; omega
+      · intro hb; rw [mem_idsL_iff] at hb; omega
     · intro a ha; exact h.bstore a ((mem_idsL_iff a _).mp ha)
     · intro a ha; exact h.bheld a ((mem_idsL_iff a _).mp ha)
+    · intro a ha; exact h.bcache a ((mem_idsL_iff a _).mp ha)
 
-/-- a store that grew by fresh identities only keeps the invariant (held part unchanged or
-    grown by identities that are fresh or already held) -/
-theorem invC_of_growth (w : World) (st hd : List HVal) (n' : Nat) (h : InvC w)
+/-- a store that grew by fresh identities only keeps the invariant (held part and cache unchanged
+    or grown by identities that are fresh, or already held / cached; a fresh identity goes to one
+    of the three only) -/
+theorem invC_of_growth (w : World) (st hd ch : List HVal) (n' : Nat) (h : InvC w)
     (hn : w.next ≤ n')
     (hst : ∀ a, cntL a st ≤ cntL a w.store + ind w.next n' a)
     (hhd : ∀ a, 0 < cntL a hd → 0 < cntL a w.held ∨ (w.next ≤ a ∧ a < n'))
-    (hsep : ∀ a, w.next ≤ a → 0 < cntL a st → cntL a hd = 0) :
-    InvC ⟨st, hd, n'⟩ := by
+    (hch : ∀ a, 0 < cntL a ch → 0 < cntL a w.cache ∨ (w.next ≤ a ∧ a < n'))
+    (hsep : ∀ a, w.next ≤ a → 0 < cntL a st → cntL a hd = 0)
+    (hsepCH : ∀ a, w.next ≤ a → 0 < cntL a ch → cntL a hd = 0)
+    (hsepCS : ∀ a, w.next ≤ a → 0 < cntL a ch → cntL a st = 0) :
+    InvC ⟨st, hd, ch, n'⟩ := by
   have hold : ∀ a, w.next ≤ a → cntL a w.store = 0 := by
     intro a ha
     rcases Nat.eq_zero_or_pos (cntL a w.store) with h0 | h0
     · exact h0
     · have := h.bstore a h0; omega
-  refine ⟨?_, ?_, ?_, ?_⟩
+  have hcold : ∀ a, a < w.next → 0 < cntL a ch → 0 < cntL a w.cache := by
+    intro a ha hc
+    rcases hch a hc with h1 | h1
+    · exact h1
+    · omega
+  refine ⟨?_, ?_, ?_, ?_, ?_, ?_, ?_⟩
   · intro a
     show cntL a st ≤ 1
     have := hst a
@@ -71,6 +97,24 @@ theorem invC_of_growth (w : World) (st hd : List HVal) (n' : Nat) (h : InvC w)
       · rcases hhd a h0 with h3 | h3 <;> omega
     · exact hsep a (by omega) ha
   · intro a ha
+    show cntL a hd = 0
+    have ha : 0 < cntL a ch := ha
+    by_cases hlt : a < w.next
+    · have h2 := h.cheld a (hcold a hlt ha)
+      rcases Nat.eq_zero_or_pos (cntL a hd) with h0 | h0
+      · exact h0
+      · rcases hhd a h0 with h3 | h3 <;> omega
+    · exact hsepCH a (by omega) ha
+  · intro a ha
+    show cntL a st = 0
+    have ha : 0 < cntL a ch := ha
+    by_cases hlt : a < w.next
+    · have h2 := h.cstore a (hcold a hlt ha)
+      have h1 := hst a
+      rw [ind_of_lt hlt] at h1
+      omega
+    · exact hsepCS a (by omega) ha
+  · intro a ha
     show a < n'
     have ha : 0 < cntL a st := ha
     have h1 := hst a
@@ -84,6 +128,12 @@ theorem invC_of_growth (w : World) (st hd : List HVal) (n' : Nat) (h : InvC w)
     have ha : 0 < cntL a hd := ha
     rcases hhd a ha with h3 | h3
     · have := h.bheld a h3; omega
+    · omega
+  · intro a ha
+    show a < n'
+    have ha : 0 < cntL a ch := ha
+    rcases hch a ha with h3 | h3
+    · have := h.bcache a h3; omega
     · omega
 
 /-! ### each kind of step -/
@@ -120,13 +170,22 @@ theorem step_pass (T : Table) (w : World) (args : List HVal) (h : InvC w)
     have := le_foldl_max (idsL args) 0 a (Or.inl ((mem_idsL_iff a _).mpr ha))
     unfold maxIdL; omega
   simp only [step]
-  refine ⟨h.nodup, ?_, ?_, ?_⟩
+  refine ⟨h.nodup, ?_, ?_, h.cstore, ?_, ?_, ?_⟩
   · intro a ha
     show cntL a (w.held ++ args) = 0
     have ha : 0 < cntL a w.store := ha
     rw [cntL_append]
     have h1 := h.disj a ha
     have h2 := h.bstore a ha
+    rcases Nat.eq_zero_or_pos (cntL a args) with h0 | h0
+    · omega
+    · rcases hargs a h0 with h3 | h3 <;> omega
+  · intro a ha
+    show cntL a (w.held ++ args) = 0
+    have ha : 0 < cntL a w.cache := ha
+    rw [cntL_append]
+    have h1 := h.cheld a ha
+    have h2 := h.bcache a ha
     rcases Nat.eq_zero_or_pos (cntL a args) with h0 | h0
     · omega
     · rcases hargs a h0 with h3 | h3 <;> omega
@@ -146,13 +205,19 @@ theorem step_pass (T : Table) (w : World) (args : List HVal) (h : InvC w)
     · have := hmax a (by omega)
       have := Nat.le_max_right w.next (maxIdL args + 1)
       omega
+  · intro a ha
+    show a < max w.next (maxIdL args + 1)
+    have := h.bcache a ha
+    have := Nat.le_max_left w.next (maxIdL args + 1)
+    omega
 
 theorem step_mutate_scribble (w : World) (id : Nat) (keep : List (Option String))
     (add : List (String × Val)) (h : InvC w) : InvC (w.mutate id (scribbleFn keep add)) := by
   simp only [World.mutate]
   have hs := fun a => scribbleL_sub id keep add a w.store
   have hh := fun a => scribbleL_sub id keep add a w.held
-  refine ⟨?_, ?_, ?_, ?_⟩
+  have hc := fun a => scribbleL_sub id keep add a w.cache
+  refine ⟨?_, ?_, ?_, ?_, ?_, ?_, ?_⟩
   · intro a
     show cntL a (mutateL id (scribbleFn keep add) w.store) ≤ 1
     have := hs a; have := h.nodup a; omega
@@ -163,6 +228,18 @@ theorem step_mutate_scribble (w : World) (id : Nat) (keep : List (Option String)
     have := h.disj a (by omega)
     omega
   · intro a ha
+    show cntL a (mutateL id (scribbleFn keep add) w.held) = 0
+    have ha : 0 < cntL a (mutateL id (scribbleFn keep add) w.cache) := ha
+    have := hc a; have := hh a
+    have := h.cheld a (by omega)
+    omega
+  · intro a ha
+    show cntL a (mutateL id (scribbleFn keep add) w.store) = 0
+    have ha : 0 < cntL a (mutateL id (scribbleFn keep add) w.cache) := ha
+    have := hc a; have := hs a
+    have := h.cstore a (by omega)
+    omega
+  · intro a ha
     have ha : 0 < cntL a (mutateL id (scribbleFn keep add) w.store) := ha
     have := hs a
     exact h.bstore a (by omega)
@@ -170,6 +247,10 @@ theorem step_mutate_scribble (w : World) (id : Nat) (keep : List (Option String)
     have ha : 0 < cntL a (mutateL id (scribbleFn keep add) w.held) := ha
     have := hh a
     exact h.bheld a (by omega)
+  · intro a ha
+    have ha : 0 < cntL a (mutateL id (scribbleFn keep add) w.cache) := ha
+    have := hc a
+    exact h.bcache a (by omega)
 
 theorem step_write (T : Table) (w : World) (temps : List (Pos × Nat × List Nat))
     (edits : List (Nat × NodeEdit)) (newDocs : List (Tpl × Pos)) (deletes : List Nat)
@@ -179,40 +260,45 @@ theorem step_write (T : Table) (w : World) (temps : List (Pos × Nat × List Nat
   obtain ⟨hs1, hs2⟩ := hs
   simp only [step]
   have hm0 := evalTemps_mono T w.held temps w.next
-  obtain ⟨hm1, he⟩ := applyEdits_sub T ⟨w.store, w.held, (evalTemps T w.held temps w.next).1⟩
+  obtain ⟨hm1, he⟩ := applyEdits_sub T ⟨w.store, w.held, (evalTemps T w.held temps w.next).1, w.cache⟩
     edits hs1 w.store (evalTemps T w.held temps w.next).2
-  obtain ⟨hm2, hn⟩ := evalNewDocs_fresh T ⟨w.store, w.held, (evalTemps T w.held temps w.next).1⟩
-    newDocs hs2 (applyEdits T ⟨w.store, w.held, (evalTemps T w.held temps w.next).1⟩ edits w.store
+  obtain ⟨hm2, hn⟩ := evalNewDocs_fresh T ⟨w.store, w.held, (evalTemps T w.held temps w.next).1, w.cache⟩
+    newDocs hs2 (applyEdits T ⟨w.store, w.held, (evalTemps T w.held temps w.next).1, w.cache⟩ edits w.store
       (evalTemps T w.held temps w.next).2).2
-  apply invC_of_growth w _ _ _ h (by omega)
+  apply invC_of_growth w _ _ _ _ h (by omega)
   · intro a
     rw [cntL_append]
-    have := dropIdxFrom_sub a deletes (applyEdits T ⟨w.store, w.held, (evalTemps T w.held temps w.next).1⟩
+    have := dropIdxFrom_sub a deletes (applyEdits T ⟨w.store, w.held, (evalTemps T w.held temps w.next).1, w.cache⟩
       edits w.store (evalTemps T w.held temps w.next).2).1 0
     have := he a
     have := hn a
     have := ind_split a hm1 hm2
     have := ind_mono (lo := (evalTemps T w.held temps w.next).2)
-      (hi := (evalNewDocs T ⟨w.store, w.held, (evalTemps T w.held temps w.next).1⟩ newDocs
-        (applyEdits T ⟨w.store, w.held, (evalTemps T w.held temps w.next).1⟩ edits w.store
+      (hi := (evalNewDocs T ⟨w.store, w.held, (evalTemps T w.held temps w.next).1, w.cache⟩ newDocs
+        (applyEdits T ⟨w.store, w.held, (evalTemps T w.held temps w.next).1, w.cache⟩ edits w.store
           (evalTemps T w.held temps w.next).2).2).2)
       (lo' := w.next)
-      (hi' := (evalNewDocs T ⟨w.store, w.held, (evalTemps T w.held temps w.next).1⟩ newDocs
-        (applyEdits T ⟨w.store, w.held, (evalTemps T w.held temps w.next).1⟩ edits w.store
+      (hi' := (evalNewDocs T ⟨w.store, w.held, (evalTemps T w.held temps w.next).1, w.cache⟩ newDocs
+        (applyEdits T ⟨w.store, w.held, (evalTemps T w.held temps w.next).1, w.cache⟩ edits w.store
           (evalTemps T w.held temps w.next).2).2).2) a hm0 (Nat.le_refl _)
     omega
+  · intro a ha; left; exact ha
   · intro a ha; left; exact ha
   · intro a ha _
     rcases Nat.eq_zero_or_pos (cntL a w.held) with h0 | h0
     · exact h0
     · have := h.bheld a h0; omega
+  · intro a ha hc
+    have := h.bcache a hc; omega
+  · intro a ha hc
+    have := h.bcache a hc; omega
 
 theorem step_read (T : Table) (w : World) (results : List Tpl) (h : InvC w)
     (hs : (Step.read results).safe T w = true) : InvC (step T w (.read results)) := by
   simp only [Step.safe] at hs
   simp only [step]
-  obtain ⟨hm, hr⟩ := evalTpls_detached T ⟨w.store, w.held, []⟩ results hs w.next
-  apply invC_of_growth w _ _ _ h hm
+  obtain ⟨hm, hr⟩ := evalTpls_detached T ⟨w.store, w.held, [], w.cache⟩ results hs w.next
+  apply invC_of_growth w _ _ _ _ h hm
   · intro a; omega
   · intro a ha
     rw [cntL_append] at ha
@@ -221,9 +307,42 @@ theorem step_read (T : Table) (w : World) (results : List Tpl) (h : InvC w)
     · right
       have := hr a (by simpa using (by omega : cntL a w.held = 0))
       exact ind_pos (by omega)
+  · intro a ha; left; exact ha
   · intro a ha hst
     have := h.bstore a hst
     omega
+  · intro a ha hc
+    have := h.bcache a hc; omega
+  · intro a ha hc
+    have := h.bcache a hc; omega
+
+theorem step_fill (T : Table) (w : World) (results : List Tpl) (h : InvC w)
+    (hs : (Step.fill results).safe T w = true) : InvC (step T w (.fill results)) := by
+  simp only [Step.safe, List.all_eq_true, Bool.and_eq_true] at hs
+  simp only [step]
+  obtain ⟨hm, hr⟩ := evalTpls_copied T ⟨w.store, w.held, [], w.cache⟩ results
+    (by simp only [List.all_eq_true]; intro t ht; exact (hs t ht).1) w.next
+  apply invC_of_growth w _ _ _ _ h hm
+  · intro a; omega
+  · intro a ha; left; exact ha
+  · intro a ha
+    rw [cntL_append] at ha
+    by_cases h0 : 0 < cntL a w.cache
+    · left; exact h0
+    · right
+      have := hr a
+      exact ind_pos (by omega)
+  · intro a ha hst
+    have := h.bstore a hst
+    omega
+  · intro a ha _
+    rcases Nat.eq_zero_or_pos (cntL a w.held) with h0 | h0
+    · exact h0
+    · have := h.bheld a h0; omega
+  · intro a ha _
+    rcases Nat.eq_zero_or_pos (cntL a w.store) with h0 | h0
+    · exact h0
+    · have := h.bstore a h0; omega
 
 theorem step_inv (T : Table) (w : World) (s : Step) (h : InvC w) (hs : s.safe T w = true) :
     InvC (step T w s) := by
@@ -232,6 +351,7 @@ theorem step_inv (T : Table) (w : World) (s : Step) (h : InvC w) (hs : s.safe T 
   | calleeWrite id keep add => simpa [step] using step_mutate_scribble w id keep add h
   | scribble id keep add => simpa [step] using step_mutate_scribble w id keep add h
   | write temps edits newDocs deletes => exact step_write T w temps edits newDocs deletes h hs
+  | fill results => exact step_fill T w results h hs
   | read results => exact step_read T w results h hs
 
 theorem run_inv (T : Table) : ∀ (steps : List Step) (w : World), InvC w → safeRun T w steps = true →
@@ -246,7 +366,7 @@ theorem run_inv (T : Table) : ∀ (steps : List Step) (w : World), InvC w → sa
     exact ih _ (step_inv T w s h hs.1) hs.2
 
 theorem invC_empty : InvC World.empty := by
-  refine ⟨?_, ?_, ?_, ?_⟩ <;> intro a <;> simp [World.empty]
+  refine ⟨?_, ?_, ?_, ?_, ?_, ?_, ?_⟩ <;> intro a <;> simp [World.empty]
 
 /-! ### what separation buys -/
 
@@ -256,7 +376,30 @@ theorem mutate_held_noop (w : World) (id : Nat) (f : HVal → HVal) (hsep : Sep 
   apply mutateL_absent
   rcases Nat.eq_zero_or_pos (cntL id w.store) with h0 | h0
   · exact h0
-  · exact absurd hid (hsep.2 id ((mem_idsL_iff id _).mpr h0))
+  · exact absurd hid (hsep.2.1 id ((mem_idsL_iff id _).mpr h0))
+
+/-- … nor what a cursor has cached -/
+theorem mutate_held_keeps_cache (w : World) (id : Nat) (f : HVal → HVal) (hsep : Sep w)
+    (hid : id ∈ idsL w.held) : (w.mutate id f).cache = w.cache := by
+  simp only [World.mutate]
+  apply mutateL_absent
+  rcases Nat.eq_zero_or_pos (cntL id w.cache) with h0 | h0
+  · exact h0
+  · exact absurd hid (hsep.2.2 id ((mem_idsL_iff id _).mpr h0)).1
+
+/-- an in-place edit of a stored document shows neither in what the caller holds nor in what a
+    cursor has cached -/
+theorem mutate_stored_keeps_rest (w : World) (id : Nat) (f : HVal → HVal) (hsep : Sep w)
+    (hid : id ∈ idsL w.store) :
+    (w.mutate id f).held = w.held ∧ (w.mutate id f).cache = w.cache := by
+  simp only [World.mutate]
+  refine ⟨mutateL_absent id f _ ?_, mutateL_absent id f _ ?_⟩
+  · rcases Nat.eq_zero_or_pos (cntL id w.held) with h0 | h0
+    · exact h0
+    · exact absurd ((mem_idsL_iff id _).mpr h0) (hsep.2.1 id hid)
+  · rcases Nat.eq_zero_or_pos (cntL id w.cache) with h0 | h0
+    · exact h0
+    · exact absurd hid (hsep.2.2 id ((mem_idsL_iff id _).mpr h0)).2
 
 theorem mutate_one_doc_only (w : World) (id : Nat) (f : HVal → HVal) (hsep : Sep w)
     (i : Nat) (d : HVal) (hd : w.store[i]? = some d) (hid : id ∈ d.ids) :
@@ -287,6 +430,7 @@ theorem held_prefix (T : Table) (w : World) (s : Step)
   | calleeWrite => exact absurd hs id
   | scribble => exact absurd hs id
   | write temps edits newDocs deletes => simpa [step] using hv
+  | fill results => simpa [step] using hv
   | read results =>
     simp only [step]
     rw [List.getElem?_append_left (List.getElem?_eq_some_iff.mp hv).1]; exact hv
@@ -352,30 +496,24 @@ theorem within_copied (T : Table) (e : Env) (ps : List Pos)
     simp only [Tpl.withinKids, Bool.and_eq_true] at h
     simp [Tpl.copiedKids, iht h.1, ihr h.2]
 
-theorem within_detached (T : Table) (e : Env) (ps : List Pos)
-    (hps : ∀ p, p ∈ ps → p.flow = .callerToCaller ∨ chainDeep (T.disc p) = true) :
-    (∀ t, Tpl.within ps t = true → Tpl.detached T e t = true) ∧
-    (∀ ks, Tpl.withinKids ps ks = true → Tpl.detachedKids T e ks = true) := by
+theorem copied_detached (T : Table) (e : Env) :
+    (∀ t, Tpl.copied T e t = true → Tpl.detached T e t = true) ∧
+    (∀ ks, Tpl.copiedKids T e ks = true → Tpl.detachedKids T e ks = true) := by
   apply Tpl.ind2
   · intro v _; simp [Tpl.detached]
   · intro pos src h
-    simp only [Tpl.within, Bool.and_eq_true, List.contains_iff_mem] at h
-    rcases hps pos h.1 with hf | hd
-    · have h2 := h.2
-      rw [hf] at h2
-      cases src <;> simp [Src.okFor] at h2
-      simp [Tpl.detached, Src.fromStore]
-    · simp [Tpl.detached, hd]
+    simp only [Tpl.copied] at h
+    simp [Tpl.detached, h]
   · intro d kids ih h
-    simp only [Tpl.within] at h
+    simp only [Tpl.copied] at h
     simpa [Tpl.detached] using ih h
   · intro _; simp [Tpl.detachedKids]
   · intro k t r iht ihr h
-    simp only [Tpl.withinKids, Bool.and_eq_true] at h
+    simp only [Tpl.copiedKids, Bool.and_eq_true] at h
     simp [Tpl.detachedKids, iht h.1, ihr h.2]
 
 theorem within_safe (T : Table) (ps : List Pos)
-    (hps : ∀ p, p ∈ ps → p.flow = .callerToCaller ∨ chainDeep (T.disc p) = true)
+    (hps : ∀ p, p ∈ ps → chainDeep (T.disc p) = true)
     (w : World) (s : Step) (hw : s.within ps = true) (hc : s.callerOwns w = true) :
     s.safe T w = true := by
   cases s with
@@ -387,40 +525,37 @@ theorem within_safe (T : Table) (ps : List Pos)
     simp only [Step.safe, Bool.and_eq_true, List.all_eq_true]
     refine ⟨?_, ?_⟩
     · intro ie hie
-      refine (within_copied T _ (ps.filter (fun p => p.flow != .callerToCaller)) ?_).2 _ (hw.1 ie hie)
-      intro p hp
-      simp only [List.mem_filter, bne_iff_ne, ne_eq] at hp
-      rcases hps p hp.1 with h | h
-      · exact absurd h hp.2
-      · exact h
+      exact (within_copied T _ ps hps).2 _ (hw.1 ie hie)
     · intro tp htp
       have h := hw.2 tp htp
-      simp only [Bool.and_eq_true, List.contains_iff_mem, bne_iff_ne, ne_eq] at h
-      rcases hps tp.2 h.1 with h' | h'
-      · exact absurd h' h.2
-      · simp [h']
+      simp only [List.contains_iff_mem] at h
+      simp [hps tp.2 h]
+  | fill results =>
+    simp only [Step.within, Bool.and_eq_true, List.all_eq_true] at hw
+    simp only [Step.safe, Bool.and_eq_true, List.all_eq_true]
+    intro t ht
+    exact ⟨(within_copied T _ ps hps).1 t (hw t ht).1, (hw t ht).2⟩
   | read results =>
     simp only [Step.within, Bool.and_eq_true, List.all_eq_true] at hw
     simp only [Step.safe, Bool.and_eq_true, List.all_eq_true]
     intro t ht
-    exact ⟨(within_detached T _ ps hps).1 t (hw t ht).1, (hw t ht).2⟩
+    exact ⟨(copied_detached T _).1 t ((within_copied T _ ps hps).1 t (hw t ht).1), (hw t ht).2⟩
 
 theorem copying_rows (T : Table) (op : Op) (h : op.copying T = true) :
-    ∀ p, p ∈ op.rows.filter Pos.final → p.flow = .callerToCaller ∨ chainDeep (T.disc p) = true := by
+    ∀ p, p ∈ op.rows.filter Pos.final → chainDeep (T.disc p) = true := by
   intro p hp
   simp only [List.mem_filter] at hp
   simp only [Op.copying, List.all_eq_true] at h
   have := h p hp.1
-  simp only [Bool.or_eq_true, Bool.not_eq_true', beq_iff_eq] at this
-  rcases this with (h1 | h1) | h1
+  simp only [Bool.or_eq_true, Bool.not_eq_true'] at this
+  rcases this with h1 | h1
   · rw [hp.2] at h1; cases h1
-  · left; exact h1
-  · right; exact h1
+  · exact h1
 
-/-! ### the real table copies at every final position that touches the store -/
+/-! ### the real table copies at every final position -/
 
 theorem final_rows_copy : ∀ p, p ∈ finalPositions →
-    p.flow = .callerToCaller ∨ chainDeep (copyDiscipline.disc p) = true := by decide
+    chainDeep (copyDiscipline.disc p) = true := by decide
 
 theorem wellFormed_safe (w : World) (s : Step) (hw : s.wellFormed = true)
     (hc : s.callerOwns w = true) : s.safe copyDiscipline w = true :=
@@ -436,5 +571,78 @@ theorem wfRun_safeRun : ∀ (steps : List Step) (w : World), wfRun copyDisciplin
     simp only [wfRun, Bool.and_eq_true] at h
     simp only [safeRun, Bool.and_eq_true]
     exact ⟨wellFormed_safe w s h.1.1 h.1.2, ih _ h.2⟩
+
+/-! ### what a read hands out -/
+
+theorem evalTpls_one (T : Table) (e : Env) (t : Tpl) (n : Nat) :
+    (evalTpls T e [t] n).1 = [(evalTpl T e t n).1] := by
+  simp [evalTpls]
+
+/-- under a table that copies at every position of `ps`, the results of a read that stays within
+    `ps` consist of fresh identities only, each once -/
+theorem read_fresh_of (T : Table) (ps : List Pos) (hps : ∀ p, p ∈ ps → chainDeep (T.disc p) = true)
+    (w : World) (results : List Tpl) (hw : (Step.read results).within ps = true) :
+    ∃ new, (step T w (.read results)).held = w.held ++ new ∧ (idsL new).Nodup ∧
+      ∀ a, a ∈ idsL new → w.next ≤ a ∧ a < (step T w (.read results)).next := by
+  simp only [Step.within, List.all_eq_true, Bool.and_eq_true] at hw
+  obtain ⟨hm, hr⟩ := evalTpls_copied T ⟨w.store, w.held, [], w.cache⟩ results
+    (by simp only [List.all_eq_true]; intro t ht; exact (within_copied T _ ps hps).1 t (hw t ht).1)
+    w.next
+  refine ⟨(evalTpls T ⟨w.store, w.held, [], w.cache⟩ results w.next).1, by simp [step], ?_, ?_⟩
+  · rw [List.nodup_iff_count]
+    intro a
+    have := hr a
+    have := ind_le_one w.next (evalTpls T ⟨w.store, w.held, [], w.cache⟩ results w.next).2 a
+    unfold cntL at *; omega
+  · intro a ha
+    rw [mem_idsL_iff] at ha
+    have := hr a
+    simp only [step]
+    exact ind_pos (by omega)
+
+theorem read_fresh (w : World) (results : List Tpl) (hw : (Step.read results).wellFormed = true) :
+    ∃ new, (step copyDiscipline w (.read results)).held = w.held ++ new ∧ (idsL new).Nodup ∧
+      ∀ a, a ∈ idsL new → w.next ≤ a ∧ a < (step copyDiscipline w (.read results)).next :=
+  read_fresh_of copyDiscipline finalPositions final_rows_copy w results hw
+
+theorem mutateL_append (id : Nat) (f : HVal → HVal) : ∀ (l1 l2 : List HVal),
+    mutateL id f (l1 ++ l2) = mutateL id f l1 ++ mutateL id f l2 := by
+  intro l1
+  induction l1 with
+  | nil => intro l2; simp [mutateL]
+  | cons v r ih => intro l2; simp [mutateL, ih]
+
+/-- editing an object that a read has just handed out changes nothing else: not the store, not a
+    cursor's cache, not any object the caller held before -/
+theorem result_private (w : World) (hb : Bounded w) (results : List Tpl)
+    (hw : (Step.read results).wellFormed = true) (id : Nat) (f : HVal → HVal)
+    (hid : id ∈ idsL ((step copyDiscipline w (.read results)).held.drop w.held.length)) :
+    ((step copyDiscipline w (.read results)).mutate id f).store = w.store ∧
+    ((step copyDiscipline w (.read results)).mutate id f).cache = w.cache ∧
+    ((step copyDiscipline w (.read results)).mutate id f).held.take w.held.length = w.held := by
+  obtain ⟨new, hnew, _, hfresh⟩ := read_fresh w results hw
+  rw [hnew, List.drop_left] at hid
+  have hge := (hfresh id hid).1
+  have absent : ∀ l : List HVal, (∀ a, a ∈ idsL l → a < w.next) → cntL id l = 0 := by
+    intro l hl
+    rcases Nat.eq_zero_or_pos (cntL id l) with h0 | h0
+    · exact h0
+    · have := hl id ((mem_idsL_iff id l).mpr h0); omega
+  have hst : (step copyDiscipline w (.read results)).store = w.store := by simp [step]
+  have hca : (step copyDiscipline w (.read results)).cache = w.cache := by simp [step]
+  refine ⟨?_, ?_, ?_⟩
+  · simp only [World.mutate, hst]; exact mutateL_absent id f _ (absent _ hb.1)
+  · simp only [World.mutate, hca]; exact mutateL_absent id f _ (absent _ hb.2.2)
+  · simp only [World.mutate, hnew, mutateL_append, mutateL_absent id f _ (absent _ hb.2.1)]
+    simp
+
+/-- what a cursor hands out again does not depend on what the caller did to anything it holds -/
+theorem reread_unaffected (w : World) (id : Nat) (f : HVal → HVal) (hsep : Sep w)
+    (hid : id ∈ idsL w.held) (i : Nat) (p : List Nat) :
+    ∃ r, (step copyDiscipline (w.mutate id f) (.read [.piece .cursorOut (.cache i p)])).held
+        = (w.mutate id f).held ++ [r] ∧ r.erase = (getAt w.cache i p).erase := by
+  refine ⟨_, by simp only [step, evalTpls_one]; rfl, ?_⟩
+  simp only [evalTpl, Src.get, chain_erase, mutate_held_keeps_cache w id f hsep hid]
+
 
 end MongoModel.Proofs.C07
